@@ -48,3 +48,16 @@ package gtids
 //@ define isMysqlSet(g GTIDSet) = hastype(g, "*github.com/go-mysql-org/go-mysql/mysql.MysqlGTIDSet") && unbox(g, "*github.com/go-mysql-org/go-mysql/mysql.MysqlGTIDSet") != nil
 //@ func mysql/gtids.IsSplitBrained
 //@   requires flavour [safety]: isMysqlSet(slaveGtidSet) && isMysqlSet(masterGtidSet)
+
+// ---- C13: split-brain test against set semantics ------------------------------------------------------------------------------
+// has3(g, u, t, x): transaction x of server u (tag t) is in the set g; setNorm: the representation invariant of sets
+// produced by ParseGTIDSet / Update (no uuid without a tag, no tag without a non-empty normalised interval list).
+//@ define has3(g *gomysql.MysqlGTIDSet, u uuid, t gomysql.Tag, x int) = has(deref(g), u) && has(deref(g)[u], t) && ivHas(deref(g)[u][t], x)
+//@ define setNorm(g *gomysql.MysqlGTIDSet) = (forall u uuid :: has(deref(g), u) ==> deref(g)[u] != nil && (exists t gomysql.Tag :: has(deref(g)[u], t))) && (forall u uuid, t gomysql.Tag :: has(deref(g), u) && has(deref(g)[u], t) ==> ivNorm(deref(g)[u][t]) && (exists x int :: ivHas(deref(g)[u][t], x)))
+//@ func mysql/gtids.IsSplitBrained
+//@   requires norm [inv]: isMysqlSet(slaveGtidSet) && isMysqlSet(masterGtidSet) ==> setNorm(unbox(slaveGtidSet, "*github.com/go-mysql-org/go-mysql/mysql.MysqlGTIDSet")) && setNorm(unbox(masterGtidSet, "*github.com/go-mysql-org/go-mysql/mysql.MysqlGTIDSet"))
+//@   loop 1 invariant seen: forall u uuid :: visited[u] ==> has(deref(mysqlMasterGtidSet), u) && (forall t gomysql.Tag :: has(deref(mysqlSlaveGtidSet)[u], t) ==> has(deref(mysqlMasterGtidSet)[u], t) && (u == masterUUID || (forall x int :: {ivHas(deref(mysqlSlaveGtidSet)[u][t], x)} ivHas(deref(mysqlSlaveGtidSet)[u][t], x) ==> ivHas(deref(mysqlMasterGtidSet)[u][t], x))))
+//@   loop 2 invariant seen_tags: forall t gomysql.Tag :: visited$2[t] ==> has(masterTagMap, t) && (slaveUUID == masterUUID || (forall x int :: {ivHas(slaveTagMap[t], x)} ivHas(slaveTagMap[t], x) ==> ivHas(masterTagMap[t], x)))
+//@   loop 2 invariant maps: slaveTagMap == deref(mysqlSlaveGtidSet)[slaveUUID] && masterTagMap == deref(mysqlMasterGtidSet)[slaveUUID] && has(deref(mysqlMasterGtidSet), slaveUUID) && has(deref(mysqlSlaveGtidSet), slaveUUID)
+//@   assert_at return#* C13.sb_foreign_always [C13]: (exists u uuid, t gomysql.Tag, x int :: has3(mysqlSlaveGtidSet, u, t, x) && !has3(mysqlMasterGtidSet, u, t, x) && u != masterUUID) ==> result
+//@   assert_at return#* C13.sb_subset_never [C13]: (forall u uuid, t gomysql.Tag, x int :: has3(mysqlSlaveGtidSet, u, t, x) ==> has3(mysqlMasterGtidSet, u, t, x)) ==> !result
